@@ -37,6 +37,14 @@ func replayViolation(prop string, v sym.Violation) (string, bool, string) {
 		mode = spec.Replay
 	}
 	switch mode {
+	case "e2e-layout":
+		ok, out := e2eLayout(v.Model)
+		os.WriteFile(filepath.Join(dir, "observed.txt"), []byte(out), 0644)
+		os.WriteFile(filepath.Join(dir, "cmd.sh"), []byte(fmt.Sprintf("#!/bin/sh\n/verif/check %s --replay %s\n", prop, dir)), 0755)
+		if ok {
+			return dir, true, "reproduced end-to-end with the built binary"
+		}
+		return dir, false, "the built binary accepts the rendered layout: " + clip(strings.TrimSpace(out), 200)
 	case "e2e-regen":
 		ok, out := e2eRegen(v.Model)
 		os.WriteFile(filepath.Join(dir, "observed.txt"), []byte(out), 0644)
@@ -266,7 +274,9 @@ func cmdReplay(prop, path string) int {
 		fmt.Println("corpus case", cs, "generates and compiles on the current tree")
 		return 0
 	}
-	if spec := findSpecFor(prop, m.Harness); spec != nil && spec.Replay == "e2e-regen" {
+	if spec := findSpecFor(prop, m.Harness); spec != nil && spec.Replay == "e2e-layout" {
+		ok, out = e2eLayout(m.Inputs)
+	} else if spec := findSpecFor(prop, m.Harness); spec != nil && spec.Replay == "e2e-regen" {
 		ok, out = e2eRegen(m.Inputs)
 	} else if spec := findSpecFor(prop, m.Harness); spec != nil && spec.Replay == "e2e-cli" {
 		ok, out = e2eCLI(m.Inputs)
